@@ -11,6 +11,12 @@ use crate::{
 mod constants {
     pub const ICD_VERSION: u16 = 0;
     pub const ICED_HEADER_SIZE: usize = 19;
+    /// the fixed part of a layer chunk behind the title
+    pub const LAYER_HEADER_SIZE: usize = 1 + 4 + 1 + 4 + 4 + 1 + 4 + 4 + 4 + 4 + 2 + 8;
+    /// the fixed part of an image layer behind the layer header: size and scale
+    pub const IMAGE_HEADER_SIZE: usize = 4 + 4 + 4 + 4;
+    /// layers are as large as the chunk says before any cell is read
+    pub const MAX_LAYER_DIM: i32 = 0xFFFF;
     pub mod layer {
         pub const IS_VISIBLE: u32 = 0b0000_0001;
         pub const POS_LOCK: u32 = 0b0000_0010;
@@ -408,7 +414,7 @@ impl OutputFormat for IcyDraw {
                                         match font_slot.parse() {
                                             Ok(font_slot) => {
                                                 let mut o: usize = 0;
-                                                let (font_name, size) = read_utf8_encoded_string(&bytes[o..]);
+                                                let (font_name, size) = read_utf8_encoded_string(&bytes[o..])?;
                                                 o += size;
                                                 let font = BitFont::from_bytes(font_name, &bytes[o..])?;
                                                 result.set_font(font_slot, font);
@@ -428,7 +434,9 @@ impl OutputFormat for IcyDraw {
                                         let (_, [layer_num, _chunk]) = m.extract();
                                         let layer_num = layer_num.parse::<usize>()?;
 
-                                        let layer = &mut result.layers[layer_num];
+                                        let Some(layer) = result.layers.get_mut(layer_num) else {
+                                            return Err(anyhow::anyhow!("continuation chunk for unknown layer {layer_num}"));
+                                        };
                                         match layer.role {
                                             crate::Role::Normal => {
                                                 let mut o = 0;
@@ -438,6 +446,9 @@ impl OutputFormat for IcyDraw {
                                                         break;
                                                     }
                                                     for x in 0..layer.get_width() {
+                                                        if o + 2 > bytes.len() {
+                                                            return Err(anyhow::anyhow!("data length out ouf bounds"));
+                                                        }
                                                         let mut attr = u16::from_le_bytes(bytes[o..(o + 2)].try_into().unwrap());
                                                         o += 2;
                                                         if attr == crate::attribute::INVISIBLE_SHORT {
@@ -456,6 +467,9 @@ impl OutputFormat for IcyDraw {
                                                         }
 
                                                         let (ch, fg, bg, font_page) = if is_short {
+                                                            if o + 4 > bytes.len() {
+                                                                return Err(anyhow::anyhow!("data length out ouf bounds"));
+                                                            }
                                                             let ch = bytes[o] as u32;
                                                             o += 1;
                                                             let fg = bytes[o] as u32;
@@ -466,6 +480,9 @@ impl OutputFormat for IcyDraw {
                                                             o += 1;
                                                             (ch, fg, bg, font_page)
                                                         } else {
+                                                            if o + 14 > bytes.len() {
+                                                                return Err(anyhow::anyhow!("data length out ouf bounds"));
+                                                            }
                                                             let ch = u32::from_le_bytes(bytes[o..(o + 4)].try_into().unwrap());
                                                             o += 4;
                                                             let fg = u32::from_le_bytes(bytes[o..(o + 4)].try_into().unwrap());
@@ -493,20 +510,28 @@ impl OutputFormat for IcyDraw {
                                                 }
                                                 continue;
                                             }
-                                            crate::Role::PastePreview => todo!(),
-                                            crate::Role::PasteImage => todo!(),
+                                            crate::Role::PastePreview | crate::Role::PasteImage => {
+                                                return Err(anyhow::anyhow!("continuation chunk for a paste layer"));
+                                            }
                                             crate::Role::Image => {
-                                                layer.sixels[0].picture_data.extend(&bytes);
+                                                let Some(sixel) = layer.sixels.first_mut() else {
+                                                    return Err(anyhow::anyhow!("continuation chunk for an image layer without image"));
+                                                };
+                                                sixel.picture_data.extend(&bytes);
                                                 continue;
                                             }
                                         }
                                     }
                                     let mut o: usize = 0;
 
-                                    let (title, size) = read_utf8_encoded_string(&bytes[o..]);
+                                    let (title, size) = read_utf8_encoded_string(&bytes[o..])?;
                                     let mut layer = Layer::new(title, (0, 0));
 
                                     o += size;
+                                    // role, unused, mode, colour, flags, transparency, offset, size, font page, data length
+                                    if bytes.len() - o < constants::LAYER_HEADER_SIZE {
+                                        return Err(LoadingError::FileTooShort.into());
+                                    }
                                     let role = bytes[o];
                                     o += 1;
                                     if role == 1 {
@@ -558,6 +583,9 @@ impl OutputFormat for IcyDraw {
                                     o += 4;
                                     let height: i32 = u32::from_le_bytes(bytes[o..(o + 4)].try_into().unwrap()) as i32;
                                     o += 4;
+                                    if !(0..=constants::MAX_LAYER_DIM).contains(&width) || !(0..=constants::MAX_LAYER_DIM).contains(&height) {
+                                        return Err(anyhow::anyhow!("unsupported layer size {width}x{height}"));
+                                    }
                                     layer.set_size((width, height));
                                     let default_font_page = u16::from_le_bytes(bytes[o..(o + 2)].try_into().unwrap());
                                     o += 2;
@@ -567,6 +595,9 @@ impl OutputFormat for IcyDraw {
                                     o += 8;
 
                                     if role == 1 {
+                                        if bytes.len() - o < constants::IMAGE_HEADER_SIZE {
+                                            return Err(LoadingError::FileTooShort.into());
+                                        }
                                         let width: i32 = u32::from_le_bytes(bytes[o..(o + 4)].try_into().unwrap()) as i32;
                                         o += 4;
                                         let height: i32 = u32::from_le_bytes(bytes[o..(o + 4)].try_into().unwrap()) as i32;
@@ -581,8 +612,8 @@ impl OutputFormat for IcyDraw {
                                             .push(Sixel::from_data((width, height), vert_scale, horiz_scale, bytes[o..].to_vec()));
                                         result.layers.push(layer);
                                     } else {
-                                        if bytes.len() < o + length {
-                                            return Err(anyhow::anyhow!("data length out ouf bounds {} data lenth: {}", o + length, bytes.len()));
+                                        if bytes.len() - o < length {
+                                            return Err(anyhow::anyhow!("data length out ouf bounds {} data lenth: {}", length, bytes.len()));
                                         }
                                         for y in 0..height {
                                             if o >= bytes.len() {
@@ -613,7 +644,7 @@ impl OutputFormat for IcyDraw {
                                                 }
 
                                                 let (ch, fg, bg, font_page) = if is_short {
-                                                    if o + 3 > bytes.len() {
+                                                    if o + 4 > bytes.len() {
                                                         return Err(anyhow::anyhow!("data length out ouf bounds"));
                                                     }
 
@@ -694,9 +725,15 @@ fn get_invisible_line_length(layer: &Layer, y: i32) -> i32 {
     length
 }
 
-fn read_utf8_encoded_string(data: &[u8]) -> (String, usize) {
+fn read_utf8_encoded_string(data: &[u8]) -> EngineResult<(String, usize)> {
+    if data.len() < 4 {
+        return Err(LoadingError::FileTooShort.into());
+    }
     let size = u32::from_le_bytes(data[0..4].try_into().unwrap()) as usize;
-    (String::from_utf8_lossy(&data[4..(4 + size)]).to_string(), size + 4)
+    if size > data.len() - 4 {
+        return Err(LoadingError::FileTooShort.into());
+    }
+    Ok((String::from_utf8_lossy(&data[4..(4 + size)]).to_string(), size + 4))
 }
 
 fn write_utf8_encoded_string(data: &mut Vec<u8>, s: &str) {
